@@ -1,4 +1,5 @@
 (* name -> extracted entry point *)
 let table : (string * (Model.sexp -> Model.sexp)) list = [
   ("C15", Model.run_C15);
+  ("abi", Model.run_abi);
 ]
